@@ -11,7 +11,7 @@ import C07 as G
 PID = "C18"
 CLUSTER = "Sorter"
 PROPS = "props/C18.v"
-N_QUICK = 600
+N_QUICK = 300
 N_THOROUGH = 8000
 LEVEL_TEXT = ("partial only in what the model covers: Coq theorems about a model of the sorter's I/O protocol (files, "
               "descriptors, handles; every I/O call a step that may fail once), for all workloads/histories and all fault "
@@ -35,7 +35,9 @@ LEVEL_NOTE = ("proved about the protocol model; NOT modelled (hence the partial 
               "writer-output-has-junk-line-after-spill-fault; such tainted runs are judged by the oracle only)")
 RULE = ("workloads = histories of add / iterate(k pulls, then abandon) / close on Sorter (generic codec, distinct integer "
         "keys, 0-7 records, capacity 1..n+1, both spill policies, re-iteration, adding after iterating, close in the middle) "
-        "and MafWriter with a sorting MafSorter (capacity lowered from outside, 0-6 records); each case first runs "
+        "and MafWriter with a sorting MafSorter (capacity lowered from outside, 0-6 records; some callers re-use ONE record "
+        "object edited in place between writes, or go on adding/removing columns of the first record after handing it "
+        "over - completeness is judged against the records as they were at hand-over); each case first runs "
         "fault-free, then once per I/O call of that run with that call failing (EIO; a second family with ENOENT; a third "
         "where a failing read raises EOFError, as GzipFile.read does on a spill file that lost its tail), "
         "plus oracle-only cases where a real spill file is cut on disk between spill and merge, "
@@ -321,10 +323,32 @@ def _writer_run(case, fault):
         writer = mw.MafWriter.from_fd(out, header, validation_stringency=ValidationStringency.Silent, assume_sorted=False)
         adds, surfaced, tainted = [], [], False
         written = []
+        shared = None
+        first = None
         for k, i in case["recs"]:
             h0 = inj.hit
             rec = MafRecord.from_line("\t".join(["chr1", str(k + 1), str(k + 1), "r%d" % i]), column_names=WCOLS,
                                       validation_stringency=ValidationStringency.Silent)
+            if case.get("reuse"):
+                # the caller fills ONE record object again and again, editing it in place between writes
+                if shared is None:
+                    shared = rec
+                else:
+                    for name in WCOLS:
+                        shared[name].value = rec[name].value
+                    rec = shared
+            if first is not None and case.get("edit_first") and not case.get("reuse"):
+                # ... or goes on editing the first record after it has been handed over (column added / removed)
+                try:
+                    if case["edit_first"] == "add":
+                        from maflib.column import MafColumnRecord
+                        first["Extra_%d" % i] = MafColumnRecord(key="Extra_%d" % i, value="x")
+                    elif "Id" in first:
+                        del first["Id"]
+                except Exception:  # noqa: BLE001
+                    pass
+            if first is None:
+                first = rec
             exc = None
             try:
                 writer += rec
@@ -604,7 +628,8 @@ def classify(case, obs):
               and len(r["_out"]) > len(r["_written"]) for r in allruns)
     junk = any(r.get("_junk_lines") for r in allruns)
     return "%s/%s/%s/calls=%s%s%s" % (case["stream"], case["kind"], "sweep" if case["fault"] == "sweep" else "single",
-                                      size, ["", "/enoent", "/eof"][_fl(case)] + ("/nostdin" if case.get("nostdin") else ""),
+                                      size, ["", "/enoent", "/eof"][_fl(case)] + ("/nostdin" if case.get("nostdin") else "")
+                                      + ("/reuse" if case.get("reuse") else "") + ("/edit-first-" + case["edit_first"] if case.get("edit_first") else ""),
                                       ("/writer-never-closes-after-spill-fault" if unclosable else "")
                                       + ("/writer-retry-duplicates-records" if dup else "")
                                       + ("/writer-output-has-junk-line-after-spill-fault" if junk else ""))
@@ -653,7 +678,9 @@ def _wcase(rng, stream):
     keys = list(range(n))
     rng.shuffle(keys)
     cap = rng.randint(1, n + 1) if stream != "boundary" or not n else rng.choice([1, n, n + 1])
+    edit = rng.choice([None, None, None, "add", "del"])
     return {"stream": stream, "kind": "writer", "cap": cap, "recs": [[k, i] for i, k in enumerate(keys)],
+            "reuse": edit is None and rng.random() < 0.35, "edit_first": edit,
             "fault": "sweep", "flavour": rng.choice([0, 0, 0, 1, 2, 2]), "nostdin": rng.random() < 0.35}
 
 
@@ -712,6 +739,17 @@ def corpus():
          "fault": "sweep", "flavour": 2},
         {"stream": "corpus", "kind": "writer", "cap": 2, "recs": [[3, 0], [1, 1], [2, 2], [5, 3], [4, 4]], "fault": "sweep",
          "flavour": 2},
+        # seeded change: lazy serialisation (the sorter kept the caller's object and encoded it at spill time): a
+        # caller re-using one record object lost records although close() returned normally
+        {"stream": "corpus", "kind": "writer", "cap": 3, "recs": [[3, 0], [1, 1], [2, 2], [5, 3], [4, 4]], "fault": None,
+         "reuse": True},
+        {"stream": "corpus", "kind": "writer", "cap": 9, "recs": [[3, 0], [1, 1], [2, 2]], "fault": None, "reuse": True},
+        # pinned tree before 22d153c: MafSorterCodec kept record.keys(), a live view of the FIRST record; adding or
+        # removing a column of that record after hand-over made every spilled record fail to re-parse: blank lines
+        {"stream": "corpus", "kind": "writer", "cap": 2, "recs": [[3, 0], [1, 1], [2, 2], [5, 3]], "fault": None,
+         "edit_first": "add"},
+        {"stream": "corpus", "kind": "writer", "cap": 2, "recs": [[3, 0], [1, 1], [2, 2], [5, 3]], "fault": None,
+         "edit_first": "del"},
         {"stream": "corpus", "kind": "trunc", "cap": 2, "keys": [3, 1, 2, 5, 4, 0], "writer": False},
         {"stream": "corpus", "kind": "trunc", "cap": 2, "keys": [3, 1, 2, 5, 4, 0], "writer": True},
     ]
